@@ -276,7 +276,7 @@ def unit_checks(ctx):
     rng = ctx.rng
     # (a) isclose / fuzzy_equal on pairs placed on the threshold
     cases, lines = [], []
-    for _ in range(ctx.scale(1500, 40000)):
+    for _ in range(ctx.scale(1500, 20000)):
         sc = 10.0 ** rng.randint(-8, 8)
         b = rng.uniform(-2, 2) * sc
         maxc = max(abs(b), abs(rng.uniform(-2, 2) * sc))
@@ -397,7 +397,7 @@ def lex_checks(ctx):
     from fieldcompare import _numpy_utils as nu
     rng = ctx.rng
     cases, tagsl, lines = [], [], []
-    for _ in range(ctx.scale(700, 30000)):
+    for _ in range(ctx.scale(700, 12000)):
         c, t = gen_lex_case(rng)
         cases.append(c)
         tagsl.append(t)
@@ -593,7 +593,7 @@ def run(ctx):
     ]
     unit_checks(ctx)
     lex_checks(ctx)
-    n_pairs = ctx.scale(330, 16000)
+    n_pairs = ctx.scale(330, 5000)
     CH = ctx.scale(110, 400)
     cli_budget = [ctx.scale(12, 200)]
     done = 0
